@@ -944,7 +944,7 @@ func (e *Exec) typeAssert(fr *frame, x *ssa.TypeAssert) Value {
 			ok = types.Implements(v.Typ, it)
 			if !ok {
 				// opaque stub values implement whatever the code asks
-				if o, isO := v.Val.(Opaque); isO && (o.Kind == "error" || o.Kind == "stubobj") {
+				if o, isO := v.Val.(Opaque); isO && (o.Kind == "error" || o.Kind == "stubobj" || o.Kind == "feetx") {
 					ok = true
 				}
 			}
